@@ -942,6 +942,16 @@ class World(object):
         else:
             bo = None
             st.srcs = [a]
+        cont = None
+        if 'cont' in bd:
+            # the other operand is a caller-owned array / list (an input like any other: C20)
+            if not self.containers:
+                raise Skip('no container')
+            ci = bd['cont'] % len(self.containers)
+            cont = self.containers[ci][0]
+            if not V.is_numeric_container(cont):
+                raise Skip('container is not numeric')
+            st.extra['container'] = ci
         reg = None
         out_like = None
         kwargs = {}
@@ -971,7 +981,7 @@ class World(object):
             pass
         self.plan_register(st, reg)
         exact = None
-        if f in ('add', 'sub', 'mul') and not ao.scaled:
+        if f in ('add', 'sub', 'mul') and not ao.scaled and cont is None:
             av = self.exact_of_slot(a, readback=True)
             if b is not None:
                 bv = self.exact_of_slot(b, readback=True) if not bo.scaled else None
@@ -1007,7 +1017,9 @@ class World(object):
         st.extra['np_two_stage'] = route == 'np' and ao.config.array_op_out_like is not None
         yield
         ao = self.obj(a)
-        bv = self.obj(b) if b is not None else V.carrier(bd['val'])
+        bv = self.obj(b) if b is not None else cont if cont is not None else V.carrier(bd['val'])
+        if cont is not None:
+            self.bump('arith_operand_from_container')
         if route == 'op':
             x = (ao + bv if f == 'add' else ao - bv if f == 'sub' else ao * bv if f == 'mul' else
                  ao / bv if f == 'truediv' else ao // bv if f == 'floordiv' else ao % bv)
